@@ -6,6 +6,9 @@ import numpy as np
 from .. import core, fixedq
 
 
+KERAS3_PASS = True   # thorough tier repeats the tie under the pinned Keras 3
+
+
 def run(run: core.Run, tier: str):
   import tensorflow as tf
   recs = fixedq.collect(run, tier, "C02")
